@@ -36,4 +36,13 @@ theorem flag_only_at_end (s : State) (a : Step) (h0 : s.inShutdown = false) (h1 
     a = .stopper ∧ s.stopPc = .setFlag :=
   Proofs.Engine.flag_only_at_end s a h0 h1
 
+/-- an engine with several listeners (`Rotate`): only `Dup` changes - it cannot choose a listener while the engine
+    runs - every other call, and `Dup` in every other phase, answers as for one listener -/
+theorem api_multi : apiMulti .running .dup = .unsupported ∧ apiMulti .booting .dup = .unsupported ∧
+    apiMulti .never .dup = .empty ∧ apiMulti .down .dup = .inShutdown ∧
+    (∀ ph c, c ≠ .dup → apiMulti ph c = api ph c) ∧ apiMulti .running .dupListenerKnown = .nil := by
+  refine ⟨by decide, by decide, by decide, by decide, ?_, by decide⟩
+  intro ph c hc
+  simp [apiMulti, hc]
+
 end Gnet.Props.C19
